@@ -151,6 +151,18 @@ fn fp4_op(op: &str, a: &Fp4, b: Option<&Fp4>) -> Fp4 {
 
 pub fn dispatch(t: &[&str]) -> Option<Out> {
     Some(match t[0] {
+        // ---- limb level (gm-sm9/src/u256.rs; same code as gm-sm2's, modelled by Impl.Limb)
+        "s9u256" => {
+            let a = u(t[2]);
+            let b = u(t[3]);
+            match t[1] {
+                "add" => { let (r, c) = gm_sm9::u256::u256_add(&a, &b); Out::Ok(format!("{} {}", h(&r), c as u8)) }
+                "sub" => { let (r, c) = gm_sm9::u256::u256_sub(&a, &b); Out::Ok(format!("{} {}", h(&r), c as u8)) }
+                "mul" => { let r = gm_sm9::u256::u256_mul(&a, &b); Out::Ok((0..8).rev().map(|i| format!("{:016x}", r[i])).collect::<String>()) }
+                "cmp" => Out::Ok(format!("{}", gm_sm9::u256::u256_cmp(&a, &b))),
+                _ => return None,
+            }
+        }
         // ---- arithmetic modulo the group order N (public functions)
         "n_add" => Out::Ok(h(&mod_n_add(&u(t[1]), &u(t[2])))),
         "n_sub" => Out::Ok(h(&mod_n_sub(&u(t[1]), &u(t[2])))),
